@@ -296,7 +296,7 @@ func structFields(w *World, typ string) []string {
 	}
 	var out []string
 	for i := 0; i < st.NumFields(); i++ {
-		out = append(out, st.Field(i).Name())
+		out = append(out, fvName(st.Field(i)))
 	}
 	return out
 }
